@@ -378,6 +378,43 @@ func checkC14(c *Check) {
 			kinds[s.what]++
 		}
 	}
+	// the token object the OK writer forwards holds each token in its own field: in every function that builds
+	// a TokenResponse (callback, refresh merge) a token field is assigned only from the same-named field of the
+	// provider's answer or of the stored tokens — a refresh token filed under AccessToken would be forwarded upstream
+	nTok := 0
+	for _, hf := range R.HandlerFuncs {
+		for _, b := range hf.Blocks {
+			for _, ins := range b.Instrs {
+				st, ok := ins.(*ssa.Store)
+				if !ok {
+					continue
+				}
+				fa, isF := st.Addr.(*ssa.FieldAddr)
+				if !isF || typeID(fa.X.Type()) != idTokenResponse {
+					continue
+				}
+				name := fieldName(fa.X.Type(), fa.Field)
+				if name != "IDToken" && name != "AccessToken" && name != "RefreshToken" {
+					continue
+				}
+				nTok++
+				bad := ""
+				src := resolveCell(stripConv(st.Val))
+				for _, l := range Leaves(src, leafOpts{noConcat: true}) {
+					if base, f, isL := fieldLoad(resolveCell(stripConv(l))); isL && f != nil {
+						tid := typeID(base.Type())
+						if (tid == idTokenResponse || tid == pkgAuthz+".idpTokensResponse") && f.Name() != name {
+							bad = shortID(tid) + "." + f.Name()
+						}
+					}
+				}
+				c.Obl(bad == "", "C14.R2", fmt.Sprintf("token-field-correspondence/%s/%s#%d", fnKey(hf), name, nTok), P.Pos(st.Pos()),
+					"TokenResponse."+name+" is assigned from the same-named field of the answer or of the stored tokens",
+					"TokenResponse."+name+" is assigned from "+bad+" in "+fnKey(hf)+": a token is filed under another token's name and the OK writer forwards it under that name")
+			}
+		}
+	}
+	c.Obl(nTok >= 4, "C14.R2", "token-field-writes", "-", fmt.Sprintf("%d assignments of token fields analysed", nTok), fmt.Sprintf("only %d assignments of TokenResponse token fields found in the handler", nTok))
 	c.Obl(nDeny >= 4 && kinds["DeniedHttpResponse.Body"] > 0 && kinds["v3.HeaderValue.Value"] >= 2, "C14.R1", "sink-count", "-",
 		fmt.Sprintf("%d browser-bound sinks analysed (%v)", nDeny, kinds),
 		fmt.Sprintf("only %d browser-bound sinks found (%v): a body sink and at least the Location and Set-Cookie value sinks are expected", nDeny, kinds))
